@@ -202,8 +202,25 @@ def _typestate(ctx, sc, ci, fn, g, pn, var):
                         problems.append(('execute-twice', a, f'{var}.execute() can run twice for one popped event'))
                     out = 'executed'
                     exc_out = 'executed'
+            none_lab = None
+            if n.kind == 'cond' and a is not None:
+                # `var is None`: pop_first() delivered nothing, there is no event to execute on that branch
+                t_ = a
+                neg = False
+                while isinstance(t_, ast.UnaryOp) and isinstance(t_.op, ast.Not):
+                    t_, neg = t_.operand, not neg
+                if isinstance(t_, ast.Name) and t_.id == var:
+                    none_lab = 'T' if neg else 'F'
+                elif isinstance(t_, ast.Compare) and len(t_.ops) == 1 and isinstance(t_.left, ast.Name) and t_.left.id == var \
+                        and isinstance(t_.comparators[0], ast.Constant) and t_.comparators[0].value is None:
+                    if isinstance(t_.ops[0], (ast.Is, ast.Eq)):
+                        none_lab = 'F' if neg else 'T'
+                    elif isinstance(t_.ops[0], (ast.IsNot, ast.NotEq)):
+                        none_lab = 'T' if neg else 'F'
             for (s, lab) in n.succ:
                 o = exc_out if lab == 'exc' else out
+                if none_lab is not None and lab == none_lab and stt == 'popped':
+                    o = 'executed'
                 if o not in states.setdefault(s.id, set()):
                     states[s.id].add(o)
                     work.append(s)
@@ -652,39 +669,146 @@ def horizon_condition(loop):
     return ast.copy_location(ast.BoolOp(op=ast.Or(), values=tests), stops[0])
 
 
+def horizon_walk(ctx, sc: SimCtx, dc, fn, cases=None, entry_only=False, with_end=False):
+    """For each of the 12 cases (next event ? bound) x including x list-empty, walk the flow graph of _run from its entry and from
+    every pop_first() -- run state STARTED, every condition decided from the case, locals bound to the next event time / the bound
+    followed along the path, undecided conditions followed both ways -- to the next pop_first() or to the end of the run.
+    Required: where the specification says `stop` no pop_first() is reached; where it says `continue` every path reaches one."""
+    prog = sc.prog
+    g = CFG(fn)
+    cls = dc.name
+    atoms = {a for a in next_time_atoms(sc, cls, fn) if '.' in a}          # canonical texts of peek_first().time
+    empt = emptiness_atoms(sc, cls, fn)
+    aliases0 = local_aliases(fn)
+
+    def has_pop(a):
+        return a is not None and any(isinstance(c, ast.Call) and isinstance(c.func, ast.Attribute) and c.func.attr == 'pop_first' and sc.is_evl(c.func.value, cls)
+                                     for c in walk_shallow(a))
+
+    def is_peek_time(a):
+        return a is not None and any(isinstance(n, ast.Attribute) and isinstance(n.value, ast.Call) and isinstance(n.value.func, ast.Attribute)
+                                     and n.value.func.attr == 'peek_first' for n in walk_shallow(a))
+
+    pops = [n for n in g.nodes if n.kind in ('stmt', 'cond', 'for', 'with') and has_pop(n.ast)]
+    popvars = set()
+    for n in pops:
+        if isinstance(n.ast, (ast.Assign, ast.AnnAssign)):
+            for t_ in (n.ast.targets if isinstance(n.ast, ast.Assign) else [n.ast.target]):
+                if isinstance(t_, ast.Name):
+                    popvars.add(t_.id)
+    if not pops:
+        raise AnalysisError('anchor vanished: DEVSSimulator._run contains no pop_first() on the event list')
+    starts = [(g.entry, 'entry')] + ([] if entry_only else
+                                     [(s_, f'after pop_first() at line {getattr(p.ast, "lineno", 0)}') for p in pops for (s_, lab) in p.succ if lab not in ('exc',)])
+    bad = []
+    where = None
+    for rel, inc, empty in (cases or itertools.product(('lt', 'eq', 'gt'), (True, False), (True, False))):
+        want_stop = empty or rel == 'gt' or (rel == 'eq' and not inc)
+        ctx.examined()
+        results = {}
+        for (start, sname) in starts:
+            seen = set()
+            todo = [(start, ())]
+            while todo:
+                node, al = todo.pop()
+                key = (node.id, al)
+                if key in seen:
+                    continue
+                seen.add(key)
+                ald = dict(al)
+                if node is g.exit:
+                    results.setdefault('stops', (sname, node))
+                    continue
+                if node is g.rexit:
+                    continue
+                if any(node is p_ for p_ in pops):
+                    results.setdefault('pops', (sname, node))
+                    continue
+                a = node.ast
+                if node.kind == 'stmt' and empty and is_peek_time(a):
+                    results.setdefault('reads the time of the first event of an empty list (AttributeError)', (sname, node))
+                    continue
+                env = {('bool', 'self._run_until_including'): inc, 'self._run_state': 'STARTED'}
+                for e_ in empt:
+                    env[('bool', e_)] = empty
+                for t_ in atoms:
+                    env[('ord', t_, sc.bound_t)] = rel
+                    env[('isnone', t_.rsplit('.', 1)[0])] = empty
+                    if with_end:
+                        env[('ord', t_, sc.end_t)] = rel
+                for nm, kind in ald.items():
+                    env[('ord', nm, sc.bound_t)] = rel if kind == 'next' else 'eq'
+                    if with_end and kind == 'next':
+                        env[('ord', nm, sc.end_t)] = rel
+                subst = {k: v for k, v in aliases0.items() if k not in ald}
+                for pv in popvars:
+                    env[('isnone', pv)] = False          # walked from a pop_first() that was reached through a non-empty list
+                if node.kind == 'cond':
+                    r = GuardEval(prog, cls, env, sc.enums, subst=subst).ev(a)
+                    for (s_, lab) in node.succ:
+                        if lab == 'exc':
+                            continue
+                        if r is None or (lab == 'T') == r or lab not in ('T', 'F'):
+                            todo.append((s_, al))
+                    continue
+                if node.kind == 'stmt' and isinstance(a, (ast.Assign, ast.AnnAssign)) and getattr(a, 'value', None) is not None:
+                    tg = a.targets if isinstance(a, ast.Assign) else [a.target]
+                    for t_ in tg:
+                        if isinstance(t_, ast.Name):
+                            vt = ctext(prog, cls, a.value, subst)
+                            ald.pop(t_.id, None)
+                            if vt in atoms:
+                                ald[t_.id] = 'next'
+                            elif vt == sc.bound_t:
+                                ald[t_.id] = 'bound'
+                            elif isinstance(a.value, ast.Name) and a.value.id in dict(al):
+                                ald[t_.id] = dict(al)[a.value.id]
+                            elif t_.id in aliases0:
+                                pass
+                            else:
+                                ald[t_.id] = None
+                    ald = {k: v for k, v in ald.items()}
+                al2 = tuple(sorted((k, v) for k, v in ald.items() if v is not None))
+                for (s_, lab) in node.succ:
+                    if lab in ('exc', 'raise', 'reraise'):
+                        continue
+                    todo.append((s_, al2))
+        got = sorted(results)
+        good = got == (['stops'] if want_stop else ['pops'])
+        if not good:
+            wrong = [k for k in got if k != ('stops' if want_stop else 'pops')] or got
+            if not got:
+                desc = 'reaches neither a pop_first() nor the end of the run'
+            else:
+                k = wrong[0]
+                sname, node = results[k]
+                desc = (f'{k}' if k not in ('stops', 'pops') else ('can stop' if k == 'stops' else 'can execute the next event')) + f' (path from {sname})'
+                if where is None:
+                    where = node.ast if node.ast is not None else None
+            bad.append((rel, inc, empty, desc, want_stop))
+    return bad, where
+
+
 def r31_horizon(ctx, sc: SimCtx):
     prog = ctx.prog
     ctx.rule('R3.1', 'horizon test of _run: stop <=> list empty or next time > bound or (next time == bound and not including), over all 12 cases; bound/including written per command')
-    dc, fn, loop = find_run_loop(sc)
-    cond = horizon_condition(loop)
-    tnames = next_time_atoms(sc, dc.name, fn)
-    empt = emptiness_atoms(sc, dc.name, fn)
-    if not tnames:
-        raise AnalysisError('R3.1: cannot identify the next-event time in _run')
-    bad = []
-    for rel, inc, empty in itertools.product(('lt', 'eq', 'gt'), (True, False), (True, False)):
-        env = {('bool', 'self._run_until_including'): inc}
-        for t in tnames:
-            env[('ord', t, sc.bound_t)] = rel
-        for e in empt:
-            env[('bool', e)] = empty
-        ge = GuardEval(prog, dc.name, env, sc.enums, subst=local_aliases(fn))
-        got = ge.ev(cond)
-        want = empty or rel == 'gt' or (rel == 'eq' and not inc)
-        ctx.examined()
-        if got is not want:
-            # when the list is empty the code binds t to the bound: (empty, rel != eq) cannot occur
-            if empty and rel != 'eq' and got is not None:
-                continue
-            bad.append((rel, inc, empty, got, want))
+    dc, fn = prog.resolve(SIM, '_run')
+    if fn is None:
+        raise AnalysisError('anchor vanished: DEVSSimulator._run')
+    try:
+        cond = horizon_condition(find_run_loop(sc)[2])
+        desc = f'_run stops when `{short(cond, 110)}`'
+    except AnalysisError:
+        cond, desc = None, '_run (horizon test spread over several statements)'
+    bad, where_node = horizon_walk(ctx, sc, dc, fn)
     ok = not bad
     ctx.exhaustive['R3.1 (next ? bound) x including x empty'] = True
-    ctx.ob('R3.1', '_run:horizon-predicate', ok, sample=f'_run stops when `{short(cond, 110)}`: 12 cases, mismatches {len(bad)}')
+    ctx.ob('R3.1', '_run:horizon-predicate', ok, sample=f'{desc}: 12 cases walked from the entry and from every pop_first() to the next pop_first() / the end of the run, mismatches {len(bad)}')
     if not ok:
         rel, inc, empty, got, want = bad[0]
-        ctx.finding('R3.1', 'DEVSSimulator._run:horizon-predicate', dc, cond,
+        ctx.finding('R3.1', 'DEVSSimulator._run:horizon-predicate', dc, where_node if where_node is not None else (cond if cond is not None else fn),
                     f'horizon test disagrees with the specification in {len(bad)}/12 cases, e.g. next event {rel} bound, including={inc}, '
-                    f'list empty={empty}: code stops={got}, required stops={want}', where='DEVSSimulator._run',
+                    f'list empty={empty}: code {got}, required {"stops" if want else "executes the next event"}', where='DEVSSimulator._run',
                     extra={'mismatches': [str(b) for b in bad]})
     # ---- writers of bound / including per command
     want = {'start': ('self._replication.end_sim_time', True), 'run_up_to': ('<param>', False), 'run_up_to_including': ('<param>', True)}
@@ -712,13 +836,39 @@ def command_bound(sc: SimCtx, m):
         raise AnalysisError(f'anchor vanished: {SIM}.{m}')
     res = {'_run_until_time': None, '_run_until_including': None}
 
+    # the command's own parameter is a time (not None); constants passed down decide `x is None` tests in the callee
+    env0 = {('isnone', a.arg): False for a in fn.args.args[1:]}
+
+    def decided(val, sub):
+        v = Subst(sub).visit(copy.deepcopy(val))
+        while isinstance(v, ast.IfExp):
+            r = GuardEval(prog, dc.name, env0, sc.enums).ev(v.test)
+            if r is None:
+                break
+            v = v.body if r else v.orelse
+        if isinstance(v, ast.BoolOp) and isinstance(v.op, ast.Or) and isinstance(v.values[0], ast.Constant) and v.values[0].value is None:
+            v = v.values[1] if len(v.values) == 2 else ast.BoolOp(op=ast.Or(), values=v.values[1:])      # `None or x` is x
+        return v
+
     def scan(cls, f, sub, depth):
+        g = None
         for n in walk_shallow(f):
             if isinstance(n, ast.Assign):
                 for t in n.targets:
                     for k in res:
                         if is_self_attr(t, k):
-                            res[k] = Subst(sub).visit(copy.deepcopy(n.value))
+                            if g is None:
+                                g = CFG(f)
+                            dead = False
+                            try:
+                                for (cn, br) in g.guard_branches(g.node_for(n)):
+                                    r = GuardEval(prog, dc.name, env0, sc.enums).ev(Subst(sub).visit(copy.deepcopy(cn.ast)))
+                                    if r is not None and r != br:
+                                        dead = True
+                            except AnalysisError:
+                                pass
+                            if not dead:
+                                res[k] = decided(n.value, sub)
             elif isinstance(n, ast.Call) and depth < 3:
                 sck = self_call_kind(n, prog)
                 if sck and sck[0] in ('self', 'super'):
@@ -798,6 +948,15 @@ def r33_pop_horizon(ctx, sc: SimCtx):
                     blocked = c.ast
             # `if horizon: return` style: node reached via the False branch of the horizon if
             ok = blocked is not None
+            if not ok:
+                # the test may be spread over several statements / branches: walk the paths from the entry for an event beyond bound and end
+                try:
+                    bad_, _w = horizon_walk(ctx, sc, ci, fn, cases=[('gt', True, False)], entry_only=True, with_end=True)
+                    ok = not bad_
+                    if ok:
+                        blocked = ast.Constant(value='no path from the entry reaches it in that case')
+                except AnalysisError:
+                    pass
             ctx.ob('R3.3', f'{ci.name}.{fn.name}:pop_first', ok,
                    sample=f'{ci.name}.{fn.name}: pop_first() unreachable when next event is beyond the bound/end: {ok}'
                           + (f' (by `{short(blocked, 60)}`)' if ok else ''))
@@ -1406,6 +1565,32 @@ def _execute_try(sc: SimCtx, fn):
     return out
 
 
+def strategy_expr(sc: SimCtx, fn, h):
+    """the expression the failure handler compares with ErrorStrategy members, handler-local aliases resolved:
+    (canonical text, {local name: value}) -- e.g. `self._error_strategy`, or `self._error_policy.strategy`"""
+    hal = {}
+    cnt = {}
+    for a in walk_shallow(h):
+        if isinstance(a, (ast.Assign, ast.AnnAssign)) and getattr(a, 'value', None) is not None:
+            for t in (a.targets if isinstance(a, ast.Assign) else [a.target]):
+                if isinstance(t, ast.Name):
+                    cnt[t.id] = cnt.get(t.id, 0) + 1
+                    hal[t.id] = a.value
+    hal = {k: v for k, v in hal.items() if cnt[k] == 1}
+    texts = {}
+    for c in walk_shallow(h):
+        if isinstance(c, ast.Compare) and len(c.comparators) == 1:
+            sides = [c.left, c.comparators[0]]
+            if any(unparse(x).startswith('ErrorStrategy.') for x in sides):
+                for x in sides:
+                    if not unparse(x).startswith('ErrorStrategy.'):
+                        t = ctext(sc.prog, SIM, x, hal)
+                        texts[t] = texts.get(t, 0) + 1
+    if not texts:
+        return None, hal
+    return max(texts, key=texts.get), hal
+
+
 def r51_strategy_table(ctx, sc: SimCtx):
     prog = ctx.prog
     ctx.rule('R5.1', 'effect of the except-branch around event.execute() in _run, per ErrorStrategy: continue-strategies touch nothing, pause sets exactly run_state := STOPPING; the loop head re-reads the state')
@@ -1444,10 +1629,14 @@ def r51_strategy_table(ctx, sc: SimCtx):
                     f'the handler decides on the local `{nm}`, assigned before the failure (outside the handler): a strategy set while the run is active '
                     '(documented as allowed, e.g. from a handler) is ignored, so a pause strategy does not pause / a continue strategy does not continue',
                     where='DEVSSimulator._run')
+    S_text, S_sub = strategy_expr(sc, fn, h)
+    if S_text is None:
+        raise AnalysisError('anchor vanished: the failure handler in _run compares nothing with ErrorStrategy members')
+    ctx.sample(f'R5.1: the handler consults `{S_text}`')
     eff = Effects(prog)
     table = {}
     for name, val in strategies.items():
-        ge = GuardEval(prog, dc.name, {'self._error_strategy': val}, sc.enums)
+        ge = GuardEval(prog, dc.name, {S_text: val}, sc.enums, subst=S_sub)
         effects = []
 
         def run(stmts):
@@ -1518,13 +1707,6 @@ def r51_strategy_table(ctx, sc: SimCtx):
     for name in strategies:
         if name not in spec_continue and name not in spec_pause:
             ctx.sample(f'R5.1: {name}: handler effects {table[name]} (not constrained by the property)')
-    # loop head re-reads the run state before the next pop
-    head = sc.c(loop.test, dc.name)
-    ok = '_run_state' in head
-    ctx.ob('R5.1', '_run:loop-head', ok, sample=f'_run loop condition: {head[:100]}')
-    if not ok:
-        ctx.finding('R5.1', 'DEVSSimulator._run:loop-head', dc, loop.test, 'the run loop does not re-read the run state: a pause requested by the handler is not honoured before the next event',
-                    where='DEVSSimulator._run')
     # ... on every path: from the handler (which may request the pause) no pop_first() is reachable without passing a test of the
     # run state -- an inner loop over simultaneous events that only tests the time would run events after the failing one
     g5 = CFG(fn)
@@ -1533,14 +1715,17 @@ def r51_strategy_table(ctx, sc: SimCtx):
         isinstance(c, ast.Call) and isinstance(c.func, ast.Attribute) and c.func.attr == 'pop_first' for c in walk_shallow(n.ast)
         if not isinstance(n.ast, (ast.While, ast.For, ast.If)) or c in list(ast.walk(n.ast.test if hasattr(n.ast, 'test') else n.ast.iter)))]
     tests5 = [n for n in g5.nodes if n.kind == 'cond' and n.ast is not None and '_run_state' in sc.c(n.ast, dc.name)]
-    unguarded = [p5 for p5 in pops5 for hn in hnodes if g5.reaches(hn, p5, avoid=tests5)]
+    # ... and from the normal completion of the event (its handler may have called stop()): the same test must lie before the next pop
+    exnodes = [n for n in g5.nodes if n.kind == 'stmt' and n.ast is not None and any(
+        isinstance(c, ast.Call) and isinstance(c.func, ast.Attribute) and c.func.attr == 'execute' for c in walk_shallow(n.ast))]
+    unguarded = [p5 for p5 in pops5 for hn in hnodes + exnodes if any(s5 is p5 or g5.reaches(s5, p5, avoid=tests5) for (s5, _l) in hn.succ if s5 not in tests5)]
     ok = bool(hnodes) and bool(pops5) and not unguarded
     ctx.ob('R5.1', '_run:state-test-before-next-pop', ok, sample=f'_run: every path from the failure handler to the next pop_first() tests the run state: {ok} '
            f'({len(hnodes)} handler entr{"y" if len(hnodes) == 1 else "ies"}, {len(pops5)} pop site(s), {len(tests5)} state test(s))')
     if not ok:
         node5 = unguarded[0].ast if unguarded else loop.test
         ctx.finding('R5.1', 'DEVSSimulator._run:pop-without-state-test', dc, node5,
-                    'after a failing event the next pop_first() can be reached without a test of the run state: under WARN_AND_PAUSE events later than the '
+                    'after an event (failing or not) the next pop_first() can be reached without a test of the run state: under WARN_AND_PAUSE events later than the '
                     'failing one (e.g. other events of the same time stamp) still run before the simulator stops', where='DEVSSimulator._run')
     # nothing but the try follows the execute in the loop body that could skip events: statements after the try in the loop
     # SimEvent.execute wraps every handler exception
@@ -1955,6 +2140,29 @@ def wakeup_last(ctx, sc: SimCtx, rule):
 
 
 # --------------------------------------------------------------------------- R5.4 the configured strategy is the one consulted
+def ctor_arg_for_field(prog, call, field):
+    """K(a, b, ...): text of the argument that K.__init__ stores unchanged in self.<field>, or None"""
+    if not (isinstance(call, ast.Call) and isinstance(call.func, ast.Name) and call.func.id in prog.classes):
+        return None
+    ci, init = prog.resolve(call.func.id, '__init__')
+    if init is None:
+        return None
+    st = [n for n in ast.walk(init) if isinstance(n, (ast.Assign, ast.AnnAssign)) and getattr(n, 'value', None) is not None
+          and any(is_self_attr(t, field) for t in (n.targets if isinstance(n, ast.Assign) else [n.target]))]
+    if len(st) != 1 or not isinstance(st[0].value, ast.Name):
+        return None
+    params = [a.arg for a in init.args.args][1:]
+    if st[0].value.id not in params:
+        return None
+    k = params.index(st[0].value.id)
+    if k < len(call.args) and not any(isinstance(a, ast.Starred) for a in call.args[:k + 1]):
+        return unparse(call.args[k])
+    for kw in call.keywords:
+        if kw.arg == st[0].value.id:
+            return unparse(kw.value)
+    return None
+
+
 def r54_strategy_setter(ctx, sc: SimCtx):
     """set_error_strategy stores its argument in the field the run-loop handler reads, on every accepted path"""
     prog = ctx.prog
@@ -1964,8 +2172,30 @@ def r54_strategy_setter(ctx, sc: SimCtx):
         raise AnalysisError('anchor vanished: Simulator.set_error_strategy')
     p = fn.args.args[1].arg
     g = CFG(fn)
-    stores = [st for st in walk_shallow(fn) if isinstance(st, ast.Assign) and any(is_self_attr(t, '_error_strategy') for t in st.targets)]
-    good = [st for st in stores if unparse(st.value) == p]
+    rdc, rfn = prog.resolve(SIM, '_run')
+    trs = _execute_try(sc, rfn) if rfn is not None else []
+    S_text = None
+    for tr in trs:
+        for hh in tr.handlers:
+            S_text = S_text or strategy_expr(sc, rfn, hh)[0]
+    if S_text is None or not S_text.startswith('self.'):
+        raise AnalysisError('anchor vanished: cannot identify the strategy expression of the failure handler')
+    path = S_text.split('.')[1:]
+    stores, good = [], []
+    for st in walk_shallow(fn):
+        if not isinstance(st, ast.Assign):
+            continue
+        for t in st.targets:
+            tt = unparse(t)
+            if tt == S_text:
+                stores.append(st)
+                if unparse(st.value) == p:
+                    good.append(st)
+            elif len(path) == 2 and tt == 'self.' + path[0]:
+                # the holder object is replaced: K(..., p, ...) whose constructor stores that argument in the consulted field
+                stores.append(st)
+                if ctor_arg_for_field(prog, st.value, path[1]) == p:
+                    good.append(st)
     nodes = [g.node_for(st) for st in good]
     skipped = g.reaches(g.entry, g.exit, avoid=nodes, labels_excluded=('exc', 'raise', 'reraise')) if nodes else True
     ok = bool(good) and len(good) == len(stores) and not skipped
@@ -2004,3 +2234,10 @@ def time_changed_sites(ctx, sc: SimCtx, rule):
                             f'`{short(c, 70)}` is fired on a path that has not popped an event (e.g. when the clock jumps to the bound of run_up_to): a paused run '
                             'notifies time-change subscribers once more than the uninterrupted run, so what they draw / schedule differs', where=f'{ci.name}.{fn.name}')
     ctx.floor(rule, 'TIME_CHANGED_EVENT fire sites', n, 2)
+
+
+def shared_state(ctx, sc, rule):
+    """class-level containers of the simulator / experiment / model classes mutated through instances: shared by all simulators"""
+    from .statrules import shared_class_state
+    shared_class_state(ctx, rule, sorted(c for c, ci in ctx.prog.classes.items() if ci.module.name in ('simulator', 'experiment', 'model', 'eventlist', 'simevent')),
+                       'two simulators (or replications) in one process influence each other')
